@@ -48,6 +48,10 @@ func init() {
 					continue // wide values per key are exercised by C02/C06; here one key per type
 				}
 				items = append(items, Item{ID: "wide:" + mc.ID(), Run: func(c *Ctx) { c17variant(c, mc, "wide", -1) }})
+				if mc.N == 0 {
+					// the same into a partly drained buffer (consumed bytes in front, unknown spare capacity behind)
+					items = append(items, Item{ID: "drained:" + mc.ID(), Run: func(c *Ctx) { c17variant(c, mc, "drained", -1) }})
+				}
 			}
 			return items
 		}}
@@ -203,7 +207,13 @@ func c17variant(c *Ctx, mc MsgCase, kind string, fieldIdx int) {
 		nf[idx] = v
 		o.Val = &StructV{F: nf}
 	}
+	drained := false
 	switch kind {
+	case "drained":
+		drained = true
+		b := s.heap[h.bufID]
+		b.B = VecBytes([]*Term{e.freshVar("consumed", 8), e.freshVar("consumed", 8), e.freshVar("consumed", 8), e.freshVar("unread", 8)})
+		b.R = CI(3)
 	case "nilpart":
 		f := ts.Fields[fieldIdx]
 		setField(f.Go, &Ptr{})
@@ -260,6 +270,17 @@ func c17variant(c *Ctx, mc MsgCase, kind string, fieldIdx int) {
 	steps := func(val func(*Term) uint64) []map[string]any {
 		m := val2json(val)
 		patch(m)
+		if drained {
+			// mostly consumed buffers whose spare capacity runs out at different points of the encoding
+			var st []map[string]any
+			for i, spare := range []int{0, 3, 5, 9, 12, 16, 24, 28, 40, 64, 100, 160, 300} {
+				bn, mn := fmt.Sprintf("h%d", i), fmt.Sprintf("m%d", i)
+				st = append(st, step("op", "newbuf", "buf", bn, "hex", strings.Repeat("00", 64)+"61", "consume", 64, "n", spare),
+					step("op", "newmsg", "msg", mn, "module", mc.Mod, "type", mc.Typ, "value", m),
+					step("op", "encode", "msg", mn, "buf", bn))
+			}
+			return st
+		}
 		return []map[string]any{step("op", "newbuf", "buf", "b", "hex", ""), step("op", "newmsg", "msg", "m", "module", mc.Mod, "type", mc.Typ, "value", m), step("op", "encode", "msg", "m", "buf", "b")}
 	}
 	e.pushCall(s, h.enc, []Value{h.mPtr, &Ptr{Obj: h.bufID}}, nil)
